@@ -115,6 +115,14 @@ func (t *template) Frag(ctx context.Context) iter.Seq[string] {
 					break
 				}
 
+				if named.Len() == 0 {
+					// a bare '@' is not a placeholder: keep it as ordinary text
+					if !yield("@") {
+						return
+					}
+					continue
+				}
+
 				if named.Len() > 0 {
 					name := named.String()
 
